@@ -14,9 +14,9 @@ def run(ctx):
     binp = snapalg.build()
     run_ = snapalg.Run(ctx)
     if ctx.tier == "quick":
-        fams, nb, seeds, par = ["SnapQuick", "SnapBaseQuick", "SnapLimitQuick"], 100, 1, 4
+        fams, nb, seeds, par = ["SnapQuick", "SnapBaseQuick", "SnapReuse", "SnapLimitQuick"], 60, 1, 6
     else:
-        fams, nb, seeds, par = ["SnapThorough", "SnapBaseThorough", "SnapLimitThoroughA", "SnapLimitThoroughB"], 400, 6, 8
+        fams, nb, seeds, par = ["SnapThorough", "SnapBaseThorough", "SnapReuse", "SnapLimitThoroughA", "SnapLimitThoroughB"], 400, 6, 8
     paths = snapalg.run_all(ctx, run_, binp, fams, fams, "snap", nb, seeds=seeds, par=par,
                             law_workers=2 if ctx.tier == "quick" else 4)
     if ctx.tier == "thorough" and paths:
